@@ -257,21 +257,39 @@ class GBackend(Backend, backend_name="vtsym"):
     @staticmethod
     def check_random_state(seed):
         """Symbolic runs: the generator returns arbitrary (opaque) tensors, so 'random initialisation' means 'any value'."""
+        if RNG["track"]:
+            from tensorly.backend.core import Backend as _B
+            return _B.check_random_state(seed)  # the real function (its np.random is the tracked proxy)
         return SymRng(seed)
+
+    randn = Backend.randn  # the real method: check_random_state + a draw + tensor()
 
     def __getattr__(self, name):
         # Backend defines stubs raising NotImplementedError for everything; reaching here means truly unknown
         raise EngineError(f"backend primitive {name!r} has no contract in E1-generic")
 
 
+RNG_LOG = []      # effect log of the tracked generators (C16): dict(ev=new|draw|seed|state, gen=..., ...)
+RNG = {"track": False, "global": None}
+
+
 class SymRng:
-    def __init__(self, seed=None):
-        self.seed = seed
+    """Stands for numpy.random.RandomState: draws return arbitrary (opaque) tensors and are logged with the generator they were made on."""
+
+    def __init__(self, seed=None, *, _role="constructed"):
+        self.seed_value = seed
+        self.role = _role          # constructed (RandomState(seed) in the code under proof) | global (np.random.mtrand._rand) | user (supplied by the caller)
         self.draws = []
+        if _role == "constructed":
+            RNG_LOG.append(dict(ev="new", gen=self, seed=seed))
+
+    def _log(self, kind, shape):
+        self.draws.append((kind, tuple(shape)))
+        RNG_LOG.append(dict(ev="draw", gen=self, kind=kind, shape=tuple(shape)))
 
     def _draw(self, kind, shape):
         shape = [shape] if isinstance(shape, (builtins.int, SInt)) else list(shape)
-        self.draws.append((kind, tuple(shape)))
+        self._log(kind, shape)
         return G.opaque_tensor("RND", shape, "float64")
 
     def randn(self, *shape):
@@ -280,22 +298,92 @@ class SymRng:
     def random_sample(self, size=None):
         return self._draw("random_sample", size if size is not None else [])
 
+    random = ranf = sample = random_sample
+
     def rand(self, *shape):
         return self._draw("rand", shape)
 
     def standard_normal(self, size=None):
         return self._draw("standard_normal", size if size is not None else [])
 
+    def normal(self, loc=0.0, scale=1.0, size=None):
+        return self._draw("normal", size if size is not None else [])
+
     def uniform(self, low=0.0, high=1.0, size=None):
         return self._draw("uniform", size if size is not None else [])
 
     def randint(self, low, high=None, size=None, dtype=int):
         shape = [size] if isinstance(size, (builtins.int, SInt)) else list(size or [])
-        self.draws.append(("randint", tuple(shape)))
+        self._log("randint", shape)
         return G.opaque_tensor("RNDI", shape, "int64")
 
-    def choice(self, *a, **k):
-        raise EngineError("rng.choice in E1-generic")
+    def choice(self, a, size=None, replace=True, p=None):
+        if not RNG["track"]:
+            raise EngineError("rng.choice in E1-generic")
+        shape = [size] if isinstance(size, (builtins.int, SInt)) else list(size or [])
+        self._log("choice", shape)
+        return G.opaque_tensor("RNDI", shape, "int64")
+
+    def permutation(self, x):
+        self._log("permutation", [x] if isinstance(x, (builtins.int, SInt)) else [len(x)])
+        raise EngineError("rng.permutation in E1-generic")
+
+    def shuffle(self, x):
+        self._log("shuffle", [])
+        raise EngineError("rng.shuffle in E1-generic")
+
+    def seed(self, seed=None):
+        RNG_LOG.append(dict(ev="seed", gen=self, seed=seed))
+
+    def get_state(self, *a, **k):
+        RNG_LOG.append(dict(ev="get_state", gen=self))
+        return ("MT19937", None, 0, 0, 0.0)
+
+    def set_state(self, *a, **k):
+        RNG_LOG.append(dict(ev="set_state", gen=self))
+
+
+class _RandomProxy(types.ModuleType):
+    """`np.random` for the code under proof while RNG tracking is on: the global generator and RandomState are tracked objects;
+    module-level draw functions are draws on the global generator."""
+
+    def __init__(self):
+        super().__init__("numpy_random_proxy")
+        self.RandomState = SymRng
+
+    @property
+    def mtrand(self):
+        return types.SimpleNamespace(_rand=global_rng(), RandomState=SymRng)
+
+    def __getattr__(self, name):
+        if name in ("random_sample", "random", "ranf", "sample", "rand", "randn", "standard_normal", "normal", "uniform", "randint", "choice", "permutation", "shuffle",
+                    "seed", "get_state", "set_state"):
+            return getattr(global_rng(), name)
+        raise EngineError(f"np.random.{name} has no contract in the RNG effect model")
+
+
+def global_rng():
+    if RNG["global"] is None:
+        RNG["global"] = SymRng(_role="global")
+    return RNG["global"]
+
+
+RANDOM_PROXY = _RandomProxy()
+
+
+@contextlib.contextmanager
+def rng_tracking():
+    """C16: run the code under proof with tracked generators; tensorly.backend.core's own `np` is shadowed too, so the REAL check_random_state is executed."""
+    import tensorly.backend.core as core
+    old_np = core.np
+    RNG["track"], RNG["global"] = True, None
+    del RNG_LOG[:]
+    core.np = NP_PROXY
+    try:
+        yield RNG_LOG
+    finally:
+        core.np = old_np
+        RNG["track"], RNG["global"] = False, None
 
 
 # every Backend stub that we did not override must become "undecided", not NotImplementedError
@@ -352,6 +440,8 @@ class _NpProxy(types.ModuleType):
         super().__init__("numpy_proxy")
 
     def __getattr__(self, name):
+        if name == "random" and RNG["track"]:
+            return RANDOM_PROXY
         return getattr(np, name)
 
     @staticmethod
